@@ -364,6 +364,20 @@ func genC04(g *G) {
 		b = c04New(r, "simple").setChunkSize(1 << 24)
 		g.c04("connect-nested", c04Env, "0", b.msg(3, 20, 0, 0, c04Cat(c04AmfStr("connect"), c04AmfNum(c04One), c04AmfObj(c04Cat(c04AmfKey("app"), c04AmfStr("live")), c04Cat(c04AmfKey("z"), sa)))).bytes())
 	}
+	// long strings (marker 0x0c) whose 32-bit length field promises far more than is there, up to the values
+	// where 4 + length wraps around
+	for _, ln := range []uint64{0xffffffff, 0xfffffffe, 0xfffffffd, 0xfffffffc, 0xfffffffb, 0x80000000, 0x7fffffff, 0x7ffffffc, 0x10000, 5, 4, 3} {
+		lie := c04Cat([]byte{0x0c}, c04Be(4, ln), []byte("qq"))
+		lie4 := c04Cat([]byte{0x0c}, c04Be(4, ln), []byte("qqqq"))
+		for _, v := range [][]byte{lie, lie4} {
+			g.c04("long-string-lies", c04Env, "0", c04New(r, "simple").msg(3, 20, 0, 0, c04Cat(c04AmfStr("connect"), c04AmfNum(c04One), c04AmfObj(c04Cat(c04AmfKey("app"), v)))).msg(2, 4, 0, 0, []byte{0, 6, 0, 0, 0, 1}).bytes())
+			g.c04("long-string-lies", c04Env, "0", c04New(r, "simple").connect().msg(3, 20, 0, 0, c04Cat(v, c04AmfNum(c04One), []byte{5})).msg(2, 4, 0, 0, []byte{0, 6, 0, 0, 0, 1}).bytes())
+			for _, cmd := range []string{"publish", "play"} {
+				b := c04New(r, "simple").connect().createStream()
+				g.c04("long-string-lies", c04Env, "0", b.msg(5, 20, 1, 0, c04Cat(c04AmfStr(cmd), c04AmfNum(0), []byte{5}, v)).msg(2, 4, 0, 0, []byte{0, 6, 0, 0, 0, 1}).bytes())
+			}
+		}
+	}
 	// publish / play argument shapes
 	for _, tail := range [][]byte{nil, {5}, {6}, c04Cat([]byte{5}, c04AmfNum(0)), c04Cat([]byte{5}, c04AmfStr("s")), c04Cat([]byte{5}, long(70000), c04AmfStr("live")),
 		c04Cat([]byte{5}, c04AmfStr("s"), c04AmfNum(0)), c04Cat([]byte{5}, c04AmfStr("s"), []byte{2, 0xff}), c04Cat([]byte{5}, []byte{2, 0, 5, 'a'})} {
